@@ -8,7 +8,7 @@ from .. import canon, gen
 from ..core import call_real
 
 ID = "C10"
-LEAN_MODULE = "CKT.Props.C10PTM"
+LEAN_MODULE = "CKT.Props.C10Gen"
 THEOREMS = [
     "CKT.C10.qubitMap_spec", "CKT.C10.qubitsOf_sorted_nodup", "CKT.C10.mem_qubitsOf",
     "CKT.C10.splitBarriers_non_barrier", "CKT.C10.splitBarriers_qubits",
@@ -223,6 +223,17 @@ def _spanning_barrier_cases():
             # automatic labelling of the same circuit (the cut gate is then an ordinary connecting gate)
             yield ("separate", dict(base, labels=None, obs=None))
             yield ("partition_problem", dict(base, labels=None, obs=obs))
+
+
+# the per-instruction decision of partition_circuit_qubits in the model is the translated source (harness/translate/partition.py)
+THEOREMS = list(THEOREMS) + ['CKT.C10Gen.decision_logic', 'CKT.C10Gen.skip_iff', 'CKT.C10Gen.go_translated']
+
+
+def regenerate():
+    """the per-instruction decision of partition_circuit_qubits, translated on every run"""
+    from ..translate import partition
+    from ..core import REPO, LEAN
+    partition.regenerate(REPO, LEAN)
 
 
 def cases(rng, tier):
